@@ -24,6 +24,7 @@ type Obligation struct {
 	Script  string // full SMT-LIB text (without check-sat/get-model trailer)
 	Relaxed string // same without quantified assertions (candidate counterexamples, covers)
 	Replay  string // replay template of the contract ("" if none)
+	Reveal  []string // opaque spec functions revealed for this obligation
 	PkgPath string // package of the function
 	Goal    string
 	ModelOf []string // constants whose model values are interesting (parameters)
@@ -125,6 +126,10 @@ func (g *Gen) declare(name, srt string) {
 	if g.declared[name] {
 		return
 	}
+	if g.u.preDeclared[name] {
+		g.declared[name] = true
+		return
+	}
 	g.declared[name] = true
 	g.decls = append(g.decls, fmt.Sprintf("(declare-const %s %s)", name, srt))
 }
@@ -166,6 +171,7 @@ func (g *Gen) addObl(kind, label string, reach Term, goal Term, src string, cove
 	o := &Obligation{Name: name, Func: g.name, Kind: kind, Label: label, Src: src, Cover: cover, Goal: goal}
 	if g.con != nil {
 		o.Replay = g.con.Replay
+		o.Reveal = g.con.Reveal
 		if g.fn != nil && g.fn.Package() != nil {
 			o.PkgPath = g.fn.Package().Pkg.Path()
 		}
